@@ -375,7 +375,10 @@ def main():
             obligations.append(oid)
             if r.canary_ok.get(f.name):
                 canaries += 1
-            if errs:
+            if errs and f.lost_hints:
+                undecided.append(f"{oid}: proof hint anchor lost ({f.lost_hints[0]}) and the proof does not go through without it: {errs[0]['msg']}")
+                rec["status"] = "undecided"
+            elif errs:
                 violations.append((oid, errs, r))
                 rec["status"] = "FAILED"
             elif r.status == "ok":
